@@ -957,9 +957,9 @@ func (w *world) onlineUpdates() {
 		return
 	}
 	for _, l := range leaders {
-		if l.Active && w.chance(5) {
+		if l.Active && w.chance(4) {
 			w.opSetOnline(l.Address, false)
-		} else if !l.Active && w.chance(12) {
+		} else if !l.Active && w.chance(22) {
 			w.opSetOnline(l.Address, true)
 		} else if !l.Active && w.chance(3) {
 			w.opSetOnline(l.Address, false) // reported offline again: the offline block moves
@@ -969,7 +969,7 @@ func (w *world) onlineUpdates() {
 
 func runRandom(p preset, seed int64, hist, blocks int) *world {
 	rng := rand.New(rand.NewSource(seed ^ 0x5eed))
-	nVal := 3 + rng.Intn(8)
+	nVal := 4 + rng.Intn(10)
 	nEnd := 1 + rng.Intn(nVal)
 	mbps := []uint64{1, 2, 2, 3, 3, 4, 5, 0}
 	mbp := mbps[rng.Intn(len(mbps))]
